@@ -569,7 +569,7 @@ fn c18_q_varuint_lt_2p21() {
 #[kani::unwind(12)]
 #[kani::stub(std::fmt::format, crate::stubs::fmt_format_stub)]
 #[kani::stub(<&[u8] as std::io::Read>::read_exact, crate::stubs::slice_read_exact_model)]
-fn c18_t_varuint_all_u64() {
+fn c18_q_varuint_all_u64() {
     let x: u64 = kani::any();
     varuint_body(x);
     kani::cover!(x == u64::MAX, "u64::MAX");
